@@ -14,6 +14,8 @@ def check(prog, rep):
     Z.check_cursors(rep, fs, 'C04', entry, prog=prog)
     Z.check_zone_labels(prog, rep, fs, entry)
     Z.check_validity(prog, rep, fs, entry)
+    Z.check_selection(prog, rep, fs, entry, 'zone_ids')
+    Z.check_selection(prog, rep, fs, entry, 'cat_ids')
     Z.check_unique_zones(prog, rep, fs, entry)
     Z.check_index_space(prog, rep, fs, entry)
     Z.check_flatten_order(prog, rep, fs, entry)
